@@ -11,6 +11,7 @@ Names are emitted as STRINGS as well as constructors: an unknown handler / kind 
 uncompilable, it makes the named obligation `C03_rules_known` fail (the table is then emitted empty).
 Reformatting, renaming locals, reordering unrelated code changes nothing; a changed precedence, a swapped
 handler, a moved entry, a new/removed/renamed keyword or token kind changes a row."""
+import re
 import os
 import sys
 
@@ -363,6 +364,68 @@ def scanner_positions(src=None):
     return rows
 
 
+def host_recursion(files=("scanner.rs", "compiler.rs"), srcs=None):
+    """the call cycles among the functions of scanner.rs / compiler.rs, by name: `file|self|f` when the body of f calls
+    f (`self.f(..)`, `s.f(..)`, `Self::f(..)`, `T::f(..)` or `f(..)`; a call on another receiver - `self.x().f(..)` - is a
+    method of another type and not counted), `file|cycle|f,g,..` for every larger strongly connected component.  The
+    handlers reached through the RULES table (fn pointers) are not calls by name: the expression grammar recurses through
+    parse_precedence, once per NESTING level.  What the rows are for: the host stack compile needs is bounded by the
+    nesting depth of the text, not by its length, exactly when every cycle listed here is entered once per nesting level
+    (theories/ScanSites.v justifies each row); a loop rewritten as a self call (`return self.scan_token()`) adds a row."""
+    rows = []
+    for fi, f in enumerate(files):
+        text = read(f) if srcs is None else srcs[fi]
+        toks = rustlex.lex(text)
+        types = set(re.findall(r"\bimpl(?:\s*<[^>{]*>)?\s+(\w+)", text)) | {"Self"}
+        bodies = fn_bodies(toks)
+        names = {n for n, _, _ in bodies}
+        calls = {}
+        for name, o, c in bodies:
+            cs = calls.setdefault(name, set())
+            for k in range(o + 1, c - 1):
+                t = toks[k]
+                if t.kind == "id" and t.text in names and toks[k + 1].text == "(" and toks[k - 1].text != "fn":
+                    p = toks[k - 1].text
+                    if p == "." and not (toks[k - 2].text in ("self", "s") and toks[k - 3].text != "."):
+                        continue
+                    if p == "::" and toks[k - 2].text not in types:
+                        continue            # Vec::new(), Box::new(): another type's function
+                    cs.add(t.text)
+        # strongly connected components (Tarjan, iterative enough for ~150 functions: recursion depth <= number of fns)
+        idx, low, stack, on, comps, cnt = {}, {}, [], set(), [], [0]
+
+        def sc(v):
+            idx[v] = low[v] = cnt[0]
+            cnt[0] += 1
+            stack.append(v)
+            on.add(v)
+            for w in sorted(calls.get(v, ())):
+                if w not in idx:
+                    sc(w)
+                    low[v] = min(low[v], low[w])
+                elif w in on:
+                    low[v] = min(low[v], idx[w])
+            if low[v] == idx[v]:
+                comp = []
+                while True:
+                    w = stack.pop()
+                    on.discard(w)
+                    comp.append(w)
+                    if w == v:
+                        break
+                if len(comp) > 1:
+                    comps.append(sorted(comp))
+        for v in sorted(calls):
+            if v not in idx:
+                sc(v)
+        for v in sorted(calls):
+            if v in calls[v]:
+                rows.append("%s|self|%s" % (f, v))
+        for comp in sorted(comps):
+            rows.append("%s|cycle|%s" % (f, ",".join(comp)))
+    return rows
+
+
 def tkind_ctor(name):
     return "T" + name.rstrip("_")
 
@@ -413,6 +476,8 @@ def gen_tokens(man):
     man["c03_keywords"] = ["%s|%d|%s|%s" % k for k in kws]
     pos = scanner_positions()
     man["c03_scanner_positions"] = pos
+    rec = host_recursion()
+    man["c03_host_recursion"] = rec
     L = ["(* GENERATED by translator/translate_c03.py from scanner.rs (enum TokenKind, fn identifier_type) - do not edit *)",
          "From Coq Require Import List String.", "Import ListNotations.", "Open Scope string_scope.", "",
          "(* enum TokenKind, in declaration order *)",
@@ -426,6 +491,10 @@ def gen_tokens(man):
          "   self.current / self.start, the two position primitives, unwrap() counts: fn|kind|text, in source order *)",
          "Definition scanner_positions_gen : list string := [",
          ";\n".join("  " + coq_str(r) for r in pos),
+         "].", "",
+         "(* call cycles among the functions of scanner.rs / compiler.rs (by name): file|self|f, file|cycle|f,g,.. *)",
+         "Definition host_recursion_gen : list string := [",
+         ";\n".join("  " + coq_str(r) for r in rec),
          "].", ""]
     return "\n".join(L)
 
